@@ -96,7 +96,7 @@ def check(ctx):
         rels = [d for d in r.deletes if alt_ids(d.data['roles']['path']) == info_ids]
         exc = exc_successors(b, o.id)
         for d in rels:
-            stolen = bool(exc) and d.id in g.reachable_from(exc, blocked=[o.id])
+            stolen = bool(exc) and bool(reachable_c(b, exc, [d.id], blocked=[o.id]))
             ctx.ob('R04.6', 'the .trashinfo is deleted only after its exclusive creation '
                             'succeeded in this process', not stolen, node=d,
                    message='when the exclusive creation fails (EEXIST: another trash-put owns '
@@ -113,6 +113,10 @@ def check(ctx):
     for o in r.opens:
         info = r.info_of(o)
         names = set(x.name for x in walk(info) if isinstance(x, LoopVar))
+        # ... or the index is the element of an endless counter: each pass of the loop
+        # head is the increment
+        counters = [x for x in walk(info) if isinstance(x, Elem) and
+                    is_call(strip(x.container), 'itertools.count')]
         incs = [n.id for n in b.nodes('assign')
                 if n.data.get('aug') == '+' and n.data['target'] in names]
         outer = [d for d in g.dominators(o.id)
@@ -120,7 +124,7 @@ def check(ctx):
         again = o.id in g.reachable_from([t for t, _ in g.succ[o.id]],
                                          blocked=set(incs) | set(outer))
         ctx.ob('R04.5', 'every retry of the exclusive creation passes an increment of the '
-                        'suffix index', bool(names) and not again, node=o,
+                        'suffix index', bool(names or counters) and not again, node=o,
                message='the creation can be retried with the same name (no increment of the '
                        'index on some retry path)')
 
